@@ -120,7 +120,20 @@ PLANNED = {
     "C18": "not claimed yet: MCLMC structural oracle (engine A) not built",
 }
 
+def render_findings():
+    lines = ["# rendering of known_findings.jsonl (the file the checks read) in the line format of the task brief; regenerate with gen_manifest.py", ""]
+    for l in open("/verif/known_findings.jsonl"):
+        d = json.loads(l)
+        what = " ".join(d["what"].split())
+        if d["status"] == "fixed":
+            lines.append(f"fixed: property={d['property']} {d.get('commit', '?')} {what} [violation key {d['key']}]")
+        else:
+            lines.append(f"known: property={d['property']} {what} [violation key prefix {d['key']}]")
+    open("/verif/known_findings.txt", "w").write("\n".join(lines) + "\n")
+
+
 def main():
+    render_findings()
     hooks_commits = subprocess.run(["git", "-C", "/repo", "log", "--format=%h %s"], capture_output=True, text=True).stdout.splitlines()
     hook_commits = [l.split()[0] for l in hooks_commits if l.split(" ", 1)[1].startswith("verif hook")]
     checks = []
